@@ -140,6 +140,13 @@ pub fn build(full_name: &str, level: u8) -> Option<Scenario> {
                 ];
                 s.max_term = mt + 1;
             }
+            if name.contains("-gc") {
+                // group commit: node 1 in group 1, the others in group 2
+                s.group_commit = true;
+                for (k, nd) in s.nodes.iter_mut().enumerate() {
+                    nd.group_id = if k == 0 { 1 } else { 2 };
+                }
+            }
             if name.contains("-back") {
                 // (1, term 1) is committed everywhere; node 1 holds a local-only (2, term 1);
                 // node 2 leads term 2 (elected by 3) with a local-only (2, term 2); node 1 knows
@@ -771,6 +778,32 @@ pub fn build(full_name: &str, level: u8) -> Option<Scenario> {
                 s.timeoutable = vec![];
                 s.crashable = vec![];
             }
+            if n.contains("-fresh") {
+                // voters {1,2}; node 3 does not exist yet. The leader adds it as a voter and
+                // everybody compacts; node 3 is then created with an empty store (no
+                // configuration, no log): it is initialised by a snapshot, but may be asked for
+                // its vote before that
+                s = Scenario { nodes: s.nodes[..3].to_vec(), voters: vec![1, 2], ..s };
+                s.nodes[2].boot = false;
+                s.nodes[2].empty_conf = true;
+                for nd in s.nodes.iter_mut() {
+                    nd.apply_lag = false;
+                }
+                s.cc_menu = vec![CcSpec::V1(0, 3)];
+                s.prefix = vec![
+                    Action::Timeout(1),
+                    Action::Settle,
+                    Action::ProposeCc(1, 0),
+                    Action::Settle,
+                    Action::Compact(1),
+                    Action::Compact(2),
+                    Action::DropAll,
+                    Action::Restart(3),
+                ];
+                s.clients_at = vec![];
+                s.timeoutable = vec![2];
+                s.crashable = vec![3];
+            }
             if n.contains("-jd") {
                 // the group sits in an explicit joint configuration that demotes voter 3:
                 // voters (1 2)&&(1 2 3), learners_next (3); nodes crash and restart there
@@ -812,6 +845,8 @@ pub fn build(full_name: &str, level: u8) -> Option<Scenario> {
                 s.transfer_targets = vec![2];
             }
             let (ccs, props, to, crashes, mt, mi, xf, lazy) = match l {
+                0 if n.contains("-fresh") => (0, 0, 1, 1, 3, 6, 0, 1),
+                1 if n.contains("-fresh") => (0, 1, 1, 1, 3, 7, 0, 1),
                 0 | 1 if n.contains("-promo") => (0, 0, 0, 0, 3, 6, 0, 1),
                 0 if n.contains("-jd") => (0, 0, 0, 1, 2, 6, 0, 1),
                 1 if n.contains("-jd") => (1, 0, 1, 1, 3, 6, 0, 1),
@@ -846,6 +881,9 @@ pub fn build(full_name: &str, level: u8) -> Option<Scenario> {
                 c.lazy = if n.contains("-lazy") { lazy } else { 0 };
                 if two {
                     c.reads = 1;
+                    c.beats = l as u8;
+                }
+                if n.contains("-fresh") {
                     c.beats = l as u8;
                 }
                 if n.contains("-promo") {
@@ -938,6 +976,26 @@ pub fn build(full_name: &str, level: u8) -> Option<Scenario> {
                 }
                 s.prefix.push(Action::Crash(2, 9));
                 s.down_forever = vec![2];
+            }
+            if n.contains("-jback") {
+                // while node 3 is down the group adds voter 4 and then enters an explicit joint
+                // configuration removing it again: (1 2 3)&&(1 2 3 4). The snapshot's incoming
+                // voters equal node 3's old configuration; only the joint part differs.
+                s = Scenario::new(name, 4);
+                s.voters = vec![1, 2, 3];
+                s.cc_menu = vec![CcSpec::V1(0, 4), CcSpec::V2(2, vec![(1, 4)]), CcSpec::V2(0, vec![])];
+                s.prefix = vec![
+                    Action::Timeout(1),
+                    Action::Settle,
+                    Action::Crash(3, 9),
+                    Action::ProposeCc(1, 0),
+                    Action::Settle,
+                    Action::ProposeCc(1, 1),
+                    Action::Settle,
+                    Action::Compact(1),
+                    Action::DropAll,
+                    Action::Restart(3),
+                ];
             }
             s.clients_at = vec![1];
             s.crashable = vec![3];
